@@ -62,6 +62,9 @@ class GMRFPiecewiseCoalescentBlockUpdatingOperator(MCMCOperator):
         return math.sqrt(self._scaler - 1)
 
     def set_adaptable_parameter(self, value: float) -> None:
+        # scaler = 1 + value^2 is only monotone for value >= 0: a negative value would
+        # reverse the direction of all later tuning steps
+        value = max(value, 0.0)
         self._scaler = 1 + value * value
 
     def propose_precision(self):
